@@ -10,6 +10,107 @@ P = 'parameter::Parameter::<T>'
 TW = '<modulator::tweener::Tweener as modulator::Modulator>::update'
 
 
+PVAL = r'parameter::Parameter::<[^>]*>::(?:value|interpolated_value|previous_value)\(&?((?:\(\*+[A-Za-z_0-9.]+\)|[A-Za-z_][A-Za-z_0-9]*)(?:\.[A-Za-z_0-9]+)*)\.([A-Za-z_][A-Za-z_0-9]*)[,)]'
+
+
+def param_cache(F, R, rule='B.C06.param-cache', fn_filter=None, floor=30):
+    """A parameter's value is read where it is used.  Where a field keeps a value derived from a Parameter of the same
+    object (a converted speed, an amplitude, a coefficient) and not from its own previous value (that is state: a phase,
+    a filter memory), the field is a cache of the parameter and has to follow it: every `update` of that parameter is
+    followed, on every path to the function's return, by a store that recomputes the field from the parameter.  A cache
+    refreshed only when `update` reports a finished tween, or only when commands are read, is stale while the parameter
+    moves (a tween in progress, a modulator link) - the value used is not the one the tween has."""
+    import re
+    from ..paths import describe_rv
+    from ..rules import must_pass
+    caches = {}      # (base type path, field, param) -> [(body, bb)]
+    def owner_ty(b):
+        q = b.path.split('::{closure')[0]
+        if q.startswith('<'):
+            return q[1:].split(' as ')[0]
+        return q.rsplit('::', 1)[0]
+    def note(b, bb, base, fld, d):
+        for m in re.finditer(PVAL, d):
+            pbase, par = m.group(1), m.group(2)
+            if pbase != base or par == fld:
+                continue
+            if ('%s.%s' % (base, fld)) in d:
+                continue          # depends on its own previous value: state, not a cache
+            caches.setdefault((owner_ty(b), base, fld, par), []).append((b, bb))
+    for b in F.bodies:
+        if b.krate != 'kira' or (fn_filter is not None and not fn_filter(b.path)):
+            continue
+        for bb, si, st in b.stmts():
+            if st['k'] != 'assign' or not st['lhs']['p']:
+                continue
+            pl = pretty_place(b, st['lhs'])
+            if '.' not in pl:
+                continue
+            base, fld = pl.rsplit('.', 1)
+            if not re.match(r'^[A-Za-z_][A-Za-z_0-9]*$', fld):
+                continue
+            note(b, bb, base, fld, describe_rv(b, st['rv'], depth=14, at=bb))
+        for bb, t in b.calls():
+            dest = t.get('dest')
+            if dest and dest['p']:
+                pl = pretty_place(b, dest)
+                if '.' in pl:
+                    base, fld = pl.rsplit('.', 1)
+                    if re.match(r'^[A-Za-z_][A-Za-z_0-9]*$', fld):
+                        note(b, bb, base, fld, '%s(%s)' % (callee_path(t), ', '.join(describe(b, a, depth=12, at=bb) for a in t['args'])))
+    n = 0
+    # every update of a parameter, in any method of the type that caches a value of it, is followed by a refresh
+    for b in F.bodies:
+        if b.krate != 'kira' or '{closure' in b.path or (fn_filter is not None and not fn_filter(b.path)):
+            continue
+        for u, t in b.calls():
+            if (callee_path(t) or '') != 'parameter::Parameter::<T>::update':
+                continue
+            recv = describe(b, t['args'][0], depth=4, at=u).lstrip('&').replace('mut ', '')
+            if '.' not in recv:
+                continue
+            rbase, par = recv.rsplit('.', 1)
+            n += 1
+            mine = [(k, sites) for k, sites in caches.items() if k[0] == owner_ty(b) and k[3] == par and (k[1] == rbase or k[1].startswith('(*'))]
+            if not mine:
+                R.ok(rule, '%s.%s|%s' % (owner_ty(b).split('::')[-1], par, b.path.split('::')[-1]), detail={'parameter': par, 'caches': 0}, nontrivial=False)
+                continue
+            for (ty, base, fld, _), sites in mine:
+                ref = [bb for (sb, bb) in sites if sb is b]
+                good = bool(ref) and must_pass(b, [u], b.return_blocks(), ref)
+                R.check(good, rule, '%s.%s<-%s|%s' % (ty.split('::')[-1], fld, par, b.path.split('::')[-1]),
+                        '%s keeps a value derived from its parameter `%s` in `%s` (set in %s), but %s updates the parameter without '
+                        'recomputing it on every path: while the parameter moves, the stale value is used'
+                        % (ty, par, fld, ', '.join(sorted(set(sb.path.split('::')[-1] for sb, _ in sites))), b.path),
+                        detail={'type': ty, 'cache': fld, 'parameter': par}, where=b.where(u))
+    # aggregates: a constructor that fills a field from the value of the parameter it also stores
+    for b in F.bodies:
+        if b.krate != 'kira' or (fn_filter is not None and not fn_filter(b.path)):
+            continue
+        for bb, si, st in b.stmts():
+            if st['k'] != 'assign' or st['rv']['k'] != 'agg' or not st['rv'].get('adt') or not st['rv'].get('fields'):
+                continue
+            adt = st['rv']['adt']
+            ops = dict(zip(st['rv']['fields'], st['rv']['ops']))
+            pfields = {}
+            for fn_, op in ops.items():
+                if 'parameter::Parameter<' in (op.get('pl', {}).get('ty') or op.get('ty') or ''):
+                    pfields[describe(b, op, depth=1, at=bb)] = fn_
+            for fn_, op in ops.items():
+                d = describe(b, op, depth=12, at=bb)
+                for m in re.finditer(PVAL.replace('[,)]', '[,)]'), d):
+                    src = (m.group(1) + '.' + m.group(2))
+                    if src in pfields or m.group(2) in pfields or ('move ' + src) in pfields:
+                        par = pfields.get(src) or pfields.get(m.group(2)) or pfields.get('move ' + src)
+                        key = (adt, fn_, par)
+                        if not any(k[0] == adt and k[2] == fn_ and k[3] == par for k in caches):
+                            n += 1
+                            R.bad(rule, '%s.%s<-%s|constructed' % (adt.split('::')[-1], fn_, par),
+                                  '%s is built with `%s` holding a value derived from its own parameter `%s` and nothing refreshes it'
+                                  % (adt, fn_, par), where=b.where(bb))
+    R.floor(rule, n, floor)
+
+
 def ungated(F, R, rule='B.C06.ungated'):
     """Time-keeping advances whether or not the owner is paused: in every per-chunk function that both updates a
     Parameter, a StartTime or the PlaybackStateManager of `self` and has a freeze gate (clock not ticking, state not
@@ -86,6 +187,7 @@ def run(ctx, R, tier):
     from .c03 import fade_continuity
     fade_continuity(F, R, rule='B.C06.fade-continuity')
     defaults_match(F, R)
+    param_cache(F, R)
     duration_interp(F, R)
     # 'with the built-in easings the value never leaves the interval': their powers stay inside their domain (A.singular)
     from ..enginea import run_singular_only
